@@ -263,7 +263,8 @@ class _ReadSourceGenerator:
             field_type = field_type.type
 
         if issubclass(field_type, Char):
-            field_type = field_type.cs.uint8
+            # The unit is still read as a char (it's a different storage type than uint8), only the value is an integer
+            read_type = lookup
             lookup = "cls.cs.uint8"
 
         template = f"""
